@@ -43,7 +43,7 @@ func (check) BudgetSeconds(tier string) int {
 	return 300
 }
 
-var coreMenu = []string{"j2t.Do(bad-middle)", "t2j.Do(cut-middle)", "j2t.HTTPConv.Do(fallback,missing-required)", "j2t.HTTPConv.Do(traceback,missing-required)", "j2t.HTTPConv.Do(traceback,ok)", "thrift.MarshalTo(Small,missing-required)", "j2t.HTTPConv.Do(no-body)", "j2t.HTTPConv.Do(fallback,write-default)", "j2t.Do(nested)", "t2j.Do(nested)", "j2t.HTTPConv.Do", "t2j.HTTPConv.Do", "p2j.Do(nested)", "p2j.Do(int64str,nested)", "thrift.Load+Marshal(pooled)", "thrift.MarshalTo(Small)"}
+var coreMenu = []string{"j2t.Do(bad-middle)", "t2j.Do(cut-middle)", "j2t.HTTPConv.Do(fallback,missing-required)", "j2t.HTTPConv.Do(traceback,missing-required)", "j2t.HTTPConv.Do(traceback,ok)", "thrift.MarshalTo(Small,missing-required)", "j2t.HTTPConv.Do(no-body)", "j2t.HTTPConv.Do(fallback,write-default)", "j2t.Do(nested)", "t2j.Do(nested)", "j2t.HTTPConv.Do", "t2j.HTTPConv.Do", "p2j.Do(nested)", "p2j.Do(int64str,nested)", "t2j.Do(sparse,field-70-absent)", "t2j.Do(reply-wrapper,exception-100)", "t2j.Do(http,raw_body from IDL default)", "thrift.Load+Marshal(pooled)", "thrift.MarshalTo(Small)"}
 
 type groupDef struct {
 	name string
